@@ -12,7 +12,8 @@ RULE = ("grammars as in C08/C09; is_empty/bool, is_finite, get_generating_symbol
         "get_reachable_symbols compared with reference fixpoints (exact finiteness by the growing-edge-on-a-cycle "
         "criterion); get_words(n) for n in 0..5 and unbounded (only on reference-finite languages, under a logical "
         "step budget) drained by the monitor and compared as a multiset with the reference bounded language. "
-        "Non-trivial: non-empty language and >=2 productions; distinct = case hash.")
+        "Non-trivial: non-empty language and >=2 productions; distinct = case hash."
+        " Later additions: the same analyses asked of grammars derived from the case (remove_epsilon, normal form, reverse, closure ...) after the parent's analyses were warmed.")
 ASSUMPTIONS = ["declared terminals count as generating (they derive themselves); symbols are compared by (kind, value)",
                "termination of unbounded get_words is restated as bounded progress under a step budget"]
 TIERS = {
